@@ -399,6 +399,31 @@ func runC20(c *Ctx) {
 			c.sum.Evaluations++
 			c.count("cidr_beyond_ascii")
 		}
+		// ... and the comma-separated JSON form with blanks of every kind around the entries (no-break space, next line,
+		// vertical tab, form feed, em space, ideographic space): one entry or several, the entries come out trimmed
+		for _, blank := range []string{" ", "\t", "\u00a0", "\u0085", "\v", "\f", "\u2003", "\u3000", "\u00a0 \t"} {
+			for _, entries := range [][]string{{"10.0.0.0/8"}, {"FE80::/10"}, {"10.0.0.0/8", "192.168.0.0/16"}, {"10.0.0.0/8", "10.0.0.0/8"}, {""}} {
+				var padded []string
+				sp := &ordset{norm: unorm}
+				for _, e := range entries {
+					padded = append(padded, blank+e+blank)
+					sp.add(e)
+				}
+				text := strings.Join(padded, ",")
+				js, _ := json.Marshal(text)
+				var got jwt.CIDRList
+				err := json.Unmarshal(js, &got)
+				var viaSet jwt.CIDRList
+				viaSet.Set(text)
+				c.sum.Evaluations++
+				c.sum.ImplChecks++
+				if err != nil || strings.Join(got, "\x00") != strings.Join(sp.items, "\x00") || strings.Join(viaSet, "\x00") != strings.Join(sp.items, "\x00") {
+					c.violation("source-network list: the comma-separated form with blanks around the entries does not decode to the trimmed lower-cased entries",
+						map[string]interface{}{"list": "cidr", "json": string(js), "impl": append([]string{}, got...), "via_set": append([]string{}, viaSet...), "spec": append([]string{}, sp.items...), "error": fmt.Sprint(err)})
+				}
+				c.count("cidr_string_form_with_unicode_blanks")
+			}
+		}
 	}
 	// source networks: both JSON forms
 	// (the same network written with and without blanks, in both letter cases: one entry of the set)
